@@ -96,6 +96,14 @@ def run(ctx, log):
             v_src.append(nlast.to_source([("expr", ("fn", "hoofd_", [], a)), ("expr", ("call", ("id", "hoofd_"), []))]))
             v_kind.append("wrap-in-function")
             v_base.append(i)
+        else:
+            fns = [s for s in a if s[0] == "expr" and s[1][0] == "fn" and s[1][1]]
+            rest = [s for s in a if not (s[0] == "expr" and s[1][0] == "fn" and s[1][1])]
+            declared = {s[1] for s in rest if s[0] == "let"}
+            if fns and rest and not any(astops.names_in(f[1][3]) & declared for f in fns) and "'fn'" not in repr(rest):
+                v_src.append(nlast.to_source(fns + [("expr", ("fn", "hoofd_", [], rest)), ("expr", ("call", ("id", "hoofd_"), []))]))
+                v_kind.append("statements-into-function")
+                v_base.append(i)
         nl = int_literal_count(a)
         ks = range(nl) if not ctx.quick else rng.sample(range(nl), min(nl, 3))
         for k in ks:
